@@ -12,6 +12,12 @@ VERIF = Path(__file__).resolve().parent.parent
 
 # id -> (level category, technique, level text, level note, design section)
 CHECKS = {
+    "C12": (
+        "exploration",
+        "Hypothesis RuleBasedStateMachine over solve / set_threads / reset_fft_manager / truncated-wisdom histories against a model (first result per (spec, threads)) and per-spec fresh-process references",
+        "Model-based stateful search: repeats under the same thread setting must be bit-identical, every result must match the same solve made as the only solve of a fresh single-threaded process to 1e-12 (double), single precision within 1e-5 of its double twin; failing histories are saved with everything the process did before them.",
+        "Thread interleavings inside numba/OpenMP/FFTW are sampled (thread counts 1..8, repetition), not owned.",
+    ),
     "C15": (
         "exploration",
         "Hypothesis RuleBasedStateMachine over solve/reopen/truncate/zero/junk/clear histories against a model (memo of uncached results + entry-file ownership); enumeration of truncation offsets; a real second process",
